@@ -50,7 +50,9 @@ func (ga *GoAway) Code() ErrorCode {
 }
 
 func (ga *GoAway) SetCode(code ErrorCode) {
-	ga.code = code & (1<<31 - 1)
+	// All 32 bits: an error code has no reserved bit (RFC 7540 6.8), and the
+	// parser keeps them all.
+	ga.code = code
 	// TODO: Set error description as a debug data?
 }
 
